@@ -66,7 +66,7 @@ def seeded_scenarios(ctx, n):
     out = []
     for i in range(n):
         ops = []
-        fam = i % 4
+        fam = i % 5
         if fam == 0:  # tcp listener vs no socket
             la = rng.choice(['', '10.0.0.1', '10.0.0.2'])
             ops += [dict(op='tcp', s=0, v=4), dict(op='bind', s=0, addr=la, port=80), dict(op='listen', s=0, backlog=5)]
@@ -107,6 +107,20 @@ def seeded_scenarios(ctx, n):
                 dst = rng.choice(['10.0.0.1', '10.0.0.2']) if v == 4 else 'fd00::1'
                 src = '10.0.0.9' if v == 4 else 'fd00::9'
                 ops.append(dict(op='inject', kind='udp', v=v, src=src, sport=7, dst=dst, dport=rng.choice([5000, 5001]), n=rng.randrange(0, 60), seed=rng.randrange(1 << 20)))
+                ops.append(dict(op='readall'))
+        elif fam == 3:  # bind without a NIC, connect WITH an explicit NIC (registration moves between demuxer tables), strangers
+            la = rng.choice(['', '10.0.0.1'])
+            ops += [dict(op='udp', s=0, v=4), dict(op='bind', s=0, addr=la, port=5000),
+                    dict(op='connect', s=0, addr='10.0.0.9', port=7, nic=rng.choice([1, 1, 0]))]
+            for j in range(6):
+                src, sport, dst = rng.choice([('10.0.0.9', 7, '10.0.0.1'), ('10.0.0.8', 7, '10.0.0.1'), ('10.0.0.9', 8, '10.0.0.1'),
+                                              ('10.0.0.9', 7, '10.0.0.2'), ('10.0.0.8', 9, '10.0.0.2')])
+                ops.append(dict(op='inject', kind='udp', v=4, src=src, sport=sport, dst=dst, dport=5000, n=rng.randrange(0, 50), seed=rng.randrange(1 << 20)))
+                ops.append(dict(op='readall'))
+            ops.append(dict(op='close', s=0))
+            ops += [dict(op='udp', s=1, v=4), dict(op='bind', s=1, addr='', port=5000)]
+            for j in range(2):
+                ops.append(dict(op='inject', kind='udp', v=4, src='10.0.0.8', sport=7, dst='10.0.0.1', dport=5000, n=5, seed=rng.randrange(1 << 20)))
                 ops.append(dict(op='readall'))
         else:  # udp + tcp on the same port: protocols do not mix
             ops += [dict(op='udp', s=0, v=4), dict(op='bind', s=0, addr='', port=6000),
